@@ -756,7 +756,7 @@ def ref_frames(b, cfg, codec, hexbm, strict):
         int(mti)
     except ValueError:
         return None
-    if hexbm and strict and not re.fullmatch(rb'[0-9a-fA-F]{32}', b[4:36]):
+    if hexbm and not re.fullmatch(rb'[0-9a-fA-F]{32}', b[4:36]):      # (bytes.fromhex skips blanks: not a bitmap of 32 hex digits)
         return None
     data = b[hdr:]
     off, frames = 0, []
